@@ -545,14 +545,15 @@ def oracle_c20(h, r):
     D, T, Q, Z, nested = parse(r['lines'])
     fails = []
     for rk in range(h.n):
-        for a, b in (('M', 'M2'), ('X', 'X2'), ('S', 'S2'), ('T', 'T2'), ('B', 'B2'), ('C', 'C2'), ('SM', 'SM2'), ('BD', 'BD2'), ('MD', 'MD2'), ('SS', 'SS2')):
+        for a, b in (('M', 'M2'), ('X', 'X2'), ('S', 'S2'), ('T', 'T2'), ('B', 'B2'), ('C', 'C2'), ('SM', 'SM2'), ('BD', 'BD2'), ('MD', 'MD2'), ('SS', 'SS2'),
+                     ('B6', 'B7'), ('B8', 'B9'), ('M6', 'M7'), ('M8', 'M9'), ('S6', 'S7'), ('S8', 'S9')):
             x, y = Z.get((rk, a)), Z.get((rk, b))
             if x is None or y is None:
                 fails.append({'what': 'no serialization dump for %s on rank %d' % (a, rk)})
                 continue
             # contents are compared as multisets where the container is one (the order of equal keys inside a
             # multimap / of a bag is not part of its contents: cereal reloads equal keys in reverse order)
-            xs, ys = (sorted(x[1]), sorted(y[1])) if a in ('B', 'X', 'T', 'BD') else (x[1], y[1])
+            xs, ys = (sorted(x[1]), sorted(y[1])) if a in ('B', 'X', 'T', 'BD', 'B6', 'B8') else (x[1], y[1])
             if xs != ys:
                 fails.append({'what': 'deserialize(%s) on rank %d gives %s, the serialized container held %s' % (a, rk, ys[:12], xs[:12])})
             elif x[0] != y[0]:
